@@ -467,7 +467,7 @@ SkipReason(e) ==
 -----------------------------------------------------------------------------
 \* THE BUILDER
 
-Plan(fam, lens, nb, un, gr, mm, vs) == [fam |-> fam, lens |-> lens, nb |-> nb, un |-> un, gr |-> gr, mm |-> mm, vs |-> vs]
+Plan(fam, lens, nb, un, gr, mm, vs) == [fam |-> fam, lens |-> lens, nb |-> nb, un |-> un, gr |-> gr, mm |-> mm, vs |-> vs, w |-> 1]
 Setting(t, a, o, g, s) == [test |-> t, alpha |-> a, order |-> o, geo |-> g, split |-> s]
 
 AllTests  == {"u", "t", "none"}
@@ -485,7 +485,7 @@ SettingsOf(fam) ==
     [] fam = "smallx" -> {Setting(t, <<1, 2>>, o, TRUE, s) : t \in {"u", "none"}, o \in {"name", "delta", "rname", "rdelta"}, s \in BOOLEAN}
                         \cup {Setting("none", <<1, 2>>, "none", g, s) : g \in BOOLEAN, s \in BOOLEAN}
     [] fam = "sim"   -> {Setting(t, a, o, g, s) : t \in AllTests, a \in AlphaGrid, o \in AllOrders, g \in BOOLEAN, s \in BOOLEAN}
-AllSettings == UNION {SettingsOf(f) : f \in {"cell", "pair", "small", "smallx", "sim"}}
+    [] fam = "wide"  -> {Setting(t, <<1, 2>>, o, g, TRUE) : t \in {"u", "none"}, o \in AllOrders \ {"none"}, g \in BOOLEAN}
 
 \* "pair": the values of a configuration are entered in non-decreasing order (one
 \* representative per multiset)
@@ -653,8 +653,8 @@ AllOKDone == TypeOK /\ (Done => \A e \in {Expected} : Lemmas(e))
 
 \* (1) "cell": every sequence of up to n values; one configuration, one benchmark.
 \* Every prefix is a collection of the family.
-CellVals4 == {0, 1, 2, 40}
-CellVals5 == {0, 1, 2, 7, 40}
+CellVals4 == {0, 1, 3, 8}
+CellVals5 == {0, 1, 4, 10, 40}
 CellPlans(n, V) == {Plan("cell", <<n>>, {1}, {1}, {0}, 1, <<V>>)}
 
 \* (2) "pair": one old/new row: every pair of multisets (sizes 1..n), tests, alphas, both
@@ -673,18 +673,25 @@ SmallPlans(fam, S, V) ==
 QuickPlans    == CellPlans(6, CellVals4) \cup PairPlans(4, PairVals3) \cup SmallPlans("small", SmallShapes3, {1, 3})
 ThoroughPlans == CellPlans(7, CellVals5) \cup PairPlans(5, PairVals4) \cup SmallPlans("smallx", SmallShapes4, {1, 3})
 
-\* (4) "sim": large collections, sampled with -simulate: 1..3 configurations, up to 3 names,
+\* (4) "sim", "wide": large collections, sampled with -simulate: 1..3 configurations, up to 3 names,
 \* 3 units, label groups, 1..2 measurements per line; value sets with an outlier, zeros,
 \* a shifted second configuration (so that the tests have something to find), a constant
 \* first configuration, zeros and one constant
-SimLow  == {0, 1, 2, 3, 4, 60}
-SimHigh == {0, 2, 4, 5, 7, 60}
+SimLow  == {0, 1, 2, 3, 5, 9, 60}
+SimHigh == {0, 2, 4, 5, 7, 12, 60}
 SimZero == {0, 5}
 SimShapes1 == {<<5>>, <<7>>, <<4, 4>>, <<5, 5>>, <<6, 6>>, <<8, 8>>, <<5, 7>>, <<7, 3>>, <<0, 5>>, <<6, 0>>,
                <<3, 3, 3>>, <<5, 4, 5>>, <<4, 0, 4>>}          \* one measurement per line
 SimShapes2 == {<<3>>, <<5>>, <<3, 3>>, <<4, 4>>, <<5, 5>>, <<5, 3>>, <<2, 5>>, <<0, 4>>, <<3, 3, 3>>, <<4, 0, 3>>}
                                                                \* up to two (a cell holds <= 10 values)
-SimPlans ==
+\* "wide": tables of up to 15 rows (5 names x 3 label values; above 12 elements Go's
+\* unstable sort is no longer an insertion sort), one unit, many lines, always split and
+\* sorted; w only multiplies the plans so that -simulate picks them often enough
+SimWide ==
+  {[Plan("wide", l, 1..5, {u}, {0, 1, 2}, 1, [c \in 1..Len(l) |-> IF vk = 1 THEN SimLow ELSE IF c = 2 THEN SimHigh ELSE SimLow])
+      EXCEPT !.w = w] :
+     l \in {<<45>>, <<60>>, <<40, 40>>, <<50, 50>>}, u \in 1..3, vk \in {1, 2}, w \in 1..16}
+SimNarrow ==
   {Plan("sim", l[2], nb, un, gr, l[1], [c \in 1..Len(l[2]) |-> CASE vk = 1 -> SimLow
                                                    [] vk = 2 -> (IF c = 2 THEN SimHigh ELSE SimLow)
                                                    [] vk = 3 -> (IF c = 1 THEN {3} ELSE SimLow)
@@ -692,5 +699,7 @@ SimPlans ==
      l \in ({1} \X SimShapes1) \cup ({2} \X SimShapes2),
      nb \in {{1}, {1, 2}, {1, 2, 3}}, un \in {{1}, {2}, {3}, {1, 2}, {1, 2, 3}},
      gr \in {{0}, {1, 2}, {0, 1}}, vk \in {1, 2, 3, 4}}
+
+SimPlans == SimWide \cup SimNarrow
 
 =============================================================================
